@@ -161,8 +161,8 @@ impl Scenario for C09Real {
     }
     fn runs(&self, tier: Tier) -> u64 {
         match tier {
-            Tier::Quick => 20_000,
-            Tier::Thorough => 1_000_000,
+            Tier::Quick => 150_000,
+            Tier::Thorough => 10_000_000,
         }
     }
     fn describe(&self) -> &'static str {
@@ -258,8 +258,8 @@ impl Scenario for C09Stub {
     }
     fn runs(&self, tier: Tier) -> u64 {
         match tier {
-            Tier::Quick => 6_000,
-            Tier::Thorough => 300_000,
+            Tier::Quick => 40_000,
+            Tier::Thorough => 3_000_000,
         }
     }
     fn describe(&self) -> &'static str {
